@@ -612,7 +612,7 @@ def model_text(case):
 def run(ck):
     import time
     t0 = time.time()
-    ck.build_proofs()
+    ck.build_proofs(extra_targets=["theories/Expand/StageGenProofs.vo"])
     t_build = time.time() - t0
     rng = random.Random(ck.seed)
     quick = ck.tier != "thorough"
